@@ -226,7 +226,8 @@ def cont_case(draw):
     rows = [[sum(mix[i][j] * b[j] for j in range(ncol)) / 10.0 for i in range(ncol)] for b in base]
     nz = draw(st.integers(0, ncol - 2))
     aff = [[draw(st.sampled_from([1.0, 0.5, 2.0, 10.0, 0.01])), draw(st.sampled_from([0.0, 1.0, -5.0, 100.0, 1e4]))] for _ in range(ncol)]
-    return {"columns": cols, "rows": rows, "Z": cols[2 : 2 + nz], "affine": aff}
+    return {"columns": cols, "rows": rows, "Z": cols[2 : 2 + nz], "affine": aff, "index_mode": draw(st.sampled_from(["default", "default", "shuffled", "offset", "strings"])),
+            "index_perm": list(draw(st.permutations(list(range(len(rows))))))}
 
 
 def check_cont(case, out):
@@ -244,6 +245,15 @@ def check_cont(case, out):
         out.evals = 0
         return
     df = pd.DataFrame(A, columns=cols)
+    # row labels other than 0..n-1 (a shuffled, filtered or shifted frame): rows stay rows
+    mode = case.get("index_mode", "default")
+    if mode == "shuffled":
+        df.index = list(case["index_perm"])
+    elif mode == "offset":
+        df.index = [100 + 3 * i for i in range(len(df))]
+    elif mode == "strings":
+        df.index = [f"r{i}" for i in case["index_perm"]]
+    out.cls(f"index_{mode}")
     out.nontrivial = len(Z) >= 1
     out.cls(f"z{len(Z)}")
 
